@@ -29,6 +29,7 @@ ASSUMPTIONS = [
 ]
 
 KINDS = ["translate", "rotate", "scale", "mirror", "shear"]
+ARRAY_TYPES = ("PointType", "PointListType", "VectorType", "NPPointType", "NPPointListType", "NPVectorType", "FloatListType")
 
 
 def purity(repo: Repo) -> RuleRun:
@@ -394,4 +395,201 @@ def unit_normal(repo: Repo) -> RuleRun:
 
 unit_normal.rule_id = "C09.UNIT-NORMAL"
 
-RULES = [purity, affine_balance, unit_normal, direction_parts, transform_equals_methods, linear_parts, deep_copy]
+def no_alias_store(repo: Repo) -> RuleRun:
+    r = RuleRun(PROP, "C09.NO-ALIAS-STORE", floor=5, what="constructors do not keep an alias of a caller's array in an attribute that methods later modify in place")
+    eff = Effects(repo)
+    elem = repo.cls("base.element.ElementBase")
+    n = 0
+    for cls in [elem, *sorted(repo.subclasses(elem), key=lambda c: c.qualname)]:
+        init = cls.methods.get("__init__")
+        if init is None:
+            continue
+        stored = eff.stored_aliases(init)
+        # only raw coordinate data counts: entity objects handed to a constructor are meant to be owned
+        array_params = set()
+        for a in init.node.args.args[1:]:
+            ann = ast.unparse(a.annotation) if a.annotation is not None else ""
+            if any(t in ann for t in ARRAY_TYPES):
+                array_params.add(a.arg)
+        if not array_params:
+            continue
+        # attributes some method of the class (or its bases/subclasses) modifies in place
+        inplace: Dict[str, FuncInfo] = {}
+        for c in [*repo.mro(cls), *repo.subclasses(cls)]:
+            for m in c.methods.values():
+                for a in eff.mutated_self_attrs(m):
+                    inplace.setdefault(a, m)
+        # attributes that receive (a copy or an alias of) an array parameter
+        fed = set()
+        for st in walk_shallow(init.node):
+            if isinstance(st, (ast.Assign, ast.AnnAssign)):
+                tgts = st.targets if isinstance(st, ast.Assign) else [st.target]
+                for t in tgts:
+                    if isinstance(t, ast.Attribute) and isinstance(t.value, ast.Name) and t.value.id == init.params[0] and st.value is not None and any(isinstance(x, ast.Name) and x.id in array_params for x in ast.walk(st.value)):
+                        fed.add(f"self.{t.attr}")
+        for attr in sorted(fed):
+            n += 1
+            al = stored.get(attr, set()) & array_params
+            modifier = inplace.get(attr)
+            if al and modifier is None:
+                r.ok(init, f"{attr} aliases {sorted(al)} but is never modified in place", key=attr)
+                continue
+            r.check(
+                not al,
+                init,
+                f"{attr} holds a private copy" + (f" (modified in place by {modifier.qualname})" if modifier else ""),
+                f"{cls.name}.__init__ stores the caller's array '{sorted(al)[0] if al else ''}' in {attr} without copying it, and {modifier.qualname if modifier else '?'} modifies {attr} in place: "
+                "transforming this entity changes the array the user passed in and every other entity built from it",
+                init.node,
+                key=attr,
+            )
+    r.require(n >= 5, f"only {n} attributes fed from array parameters found")
+    return r
+
+
+no_alias_store.rule_id = "C09.NO-ALIAS-STORE"
+
+
+def transform_routing(repo: Repo) -> RuleRun:
+    """Abstract run of ElementBase.transform: every transformation of the list reaches every part with
+    the right method and arguments, and a default origin is the entity's centre AT THAT MOMENT."""
+    r = RuleRun(PROP, "C09.TRANSFORM-ROUTING", floor=8, what="ElementBase.transform dispatch, argument order and per-transformation default origin")
+    elem = repo.cls("base.element.ElementBase")
+    tfn = repo.func("base.element.ElementBase.transform")
+    trmod = repo.module("base.transforms")
+    calls: List[Any] = []
+
+    class Part(Obj):
+        pass
+
+    parts = [Obj("part0"), Obj("part1")]
+    this = Obj("entity", cls=elem)
+    this.set("parts", parts)
+    orig_attr = {}
+
+    def hook(ev, call: ast.Call, name):
+        if isinstance(call.func, ast.Attribute) and call.func.attr in KINDS:
+            try:
+                recv = ev.eval(call.func.value)
+            except NotEvaluable:
+                return NO_MATCH
+            if isinstance(recv, Obj) and recv in parts:
+                args = [ev.eval(a) for a in call.args]
+                kwargs = {k.arg: ev.eval(k.value) for k in call.keywords}
+                calls.append((recv._name, call.func.attr, args, kwargs))
+                return recv
+        return NO_MATCH
+
+    def mk(kind, **fields):
+        cls = repo.resolve_name(trmod, kind)
+        o = Obj(kind, cls=cls)
+        for k, v in fields.items():
+            o.set(k, v)
+        return o
+
+    seq = [
+        mk("Rotation", axis=Sym("ax1"), angle=Sym("an1"), origin=None),
+        mk("Translation", displacement=Sym("d")),
+        mk("Scaling", ratio=Sym("r"), origin=None),
+        mk("Mirror", normal=Sym("n"), origin=None),
+        mk("Rotation", axis=Sym("ax2"), angle=Sym("an2"), origin=Sym("o2")),
+        mk("Scaling", ratio=Sym("r2"), origin=Sym("o3")),
+        mk("Mirror", normal=Sym("n2"), origin=Sym("o4")),
+        mk("Shear", normal=Sym("sn"), origin=Sym("so"), direction=Sym("sd"), angle=Sym("sa")),
+    ]
+    ev = Evaluator(repo=repo, module=tfn.module, call_hook=hook)
+    base_attr = ev.obj_attr
+
+    def obj_attr(obj, attr):
+        if obj is this and attr == "center":
+            return Sym(f"center-after-{len(calls)}-part-calls")
+        return base_attr(obj, attr)
+
+    ev.obj_attr = obj_attr  # type: ignore[method-assign]
+    try:
+        ev.call_funcinfo(tfn, [this, seq])
+    except (NotEvaluable, Raised) as err:
+        raise AnalysisError(f"ElementBase.transform not evaluable on the symbolic model: {err}") from err
+
+    def arg(call_, pos, kw):
+        _, _, args, kwargs = call_
+        if kw in kwargs:
+            return kwargs[kw]
+        return args[pos] if pos < len(args) else None
+
+    expected = []
+    for i, t in enumerate(seq):
+        before = 2 * i  # part calls made before this transformation started
+        k = t._name
+        for p in ("part0", "part1"):
+            if k == "Translation":
+                expected.append((p, "translate", {"displacement": Sym("d")}))
+            elif k == "Rotation":
+                o = t.get("origin")
+                expected.append((p, "rotate", {"angle": t.get("angle"), "axis": t.get("axis"), "origin": o if o is not None else Sym(f"center-after-{before}-part-calls")}))
+            elif k == "Scaling":
+                o = t.get("origin")
+                expected.append((p, "scale", {"ratio": t.get("ratio"), "origin": o if o is not None else Sym(f"center-after-{before}-part-calls")}))
+            elif k == "Mirror":
+                o = t.get("origin")
+                expected.append((p, "mirror", {"normal": t.get("normal"), "origin": o if o is not None else [0, 0, 0]}))
+            elif k == "Shear":
+                expected.append((p, "shear", {"normal": Sym("sn"), "origin": Sym("so"), "direction": Sym("sd"), "angle": Sym("sa")}))
+    sig = {"translate": ["displacement"], "rotate": ["angle", "axis", "origin"], "scale": ["ratio", "origin"], "mirror": ["normal", "origin"], "shear": ["normal", "origin", "direction", "angle"]}
+    r.check(len(calls) == len(expected), tfn, f"{len(calls)} part calls for {len(seq)} transformations x 2 parts", f"ElementBase.transform makes {len(calls)} calls on the parts for {len(seq)} transformations and 2 parts (expected {len(expected)}): a transformation or a part is skipped or applied twice", tfn.node, key="count")
+    for i, (c, e) in enumerate(zip(calls, expected)):
+        p, meth, want = e
+        got = {name: arg(c, j, name) for j, name in enumerate(sig.get(c[1], []))}
+        ok = c[0] == p and c[1] == meth and all(got.get(kk) == vv or (isinstance(vv, list) and list(got.get(kk) or []) == vv) for kk, vv in want.items())
+        r.check(
+            ok,
+            tfn,
+            f"#{i}: {p}.{meth}({', '.join(f'{kk}={vv}' for kk, vv in want.items())})",
+            f"ElementBase.transform, transformation {i // 2} ({seq[i // 2]._name}): calls {c[0]}.{c[1]} with {got}; expected {p}.{meth} with {want} "
+            "(a default origin is the entity's centre at the time the transformation is applied, a default mirror plane passes through the global origin)",
+            tfn.node,
+            key=f"call{i}:{seq[i // 2]._name}",
+        )
+    # the per-kind methods of ElementBase themselves
+    cases = [
+        ("translate", [Sym("d")], {"displacement": Sym("d")}),
+        ("rotate", [Sym("an"), Sym("ax"), Sym("o")], {"angle": Sym("an"), "axis": Sym("ax"), "origin": Sym("o")}),
+        ("rotate", [Sym("an"), Sym("ax")], {"angle": Sym("an"), "axis": Sym("ax"), "origin": Sym("center-after-0-part-calls")}),
+        ("scale", [Sym("r"), Sym("o")], {"ratio": Sym("r"), "origin": Sym("o")}),
+        ("scale", [Sym("r")], {"ratio": Sym("r"), "origin": Sym("center-after-0-part-calls")}),
+        ("mirror", [Sym("n"), Sym("o")], {"normal": Sym("n"), "origin": Sym("o")}),
+        ("mirror", [Sym("n")], {"normal": Sym("n"), "origin": [0, 0, 0]}),
+        ("shear", [Sym("sn"), Sym("so"), Sym("sd"), Sym("sa")], {"normal": Sym("sn"), "origin": Sym("so"), "direction": Sym("sd"), "angle": Sym("sa")}),
+    ]
+    for kind, argv, want in cases:
+        fn = repo.func(f"base.element.ElementBase.{kind}")
+        del calls[:]
+        ev = Evaluator(repo=repo, module=fn.module, call_hook=hook)
+        base_attr2 = ev.obj_attr
+
+        def obj_attr2(obj, attr, base_attr2=base_attr2):
+            if obj is this and attr == "center":
+                return Sym(f"center-after-{len(calls)}-part-calls")
+            return base_attr2(obj, attr)
+
+        ev.obj_attr = obj_attr2  # type: ignore[method-assign]
+        try:
+            res = ev.call_funcinfo(fn, [this, *argv])
+        except (NotEvaluable, Raised) as err:
+            raise AnalysisError(f"ElementBase.{kind} not evaluable on the symbolic model: {err}") from err
+        ok = len(calls) == 2 and [c[0] for c in calls] == ["part0", "part1"] and res is this
+        detail = f"calls {[(c[0], c[1]) for c in calls]}, returns {res!r}"
+        if ok:
+            for c in calls:
+                got = {name: arg(c, j, name) for j, name in enumerate(sig[kind])}
+                if c[1] != kind or any(not (got.get(kk) == vv or (isinstance(vv, list) and list(got.get(kk) or []) == vv)) for kk, vv in want.items()):
+                    ok = False
+                    detail = f"{c[0]}.{c[1]} called with {got}; expected {want}"
+        label = f"{kind}({', '.join(map(repr, argv))})"
+        r.check(ok, fn, f"{label}: every part, right arguments, returns self", f"ElementBase.{label}: {detail} (each part must receive the transformation once; a missing origin defaults to the entity's centre evaluated before any part moves, for mirror to the global origin; the entity itself is returned)", fn.node, key=label)
+    return r
+
+
+transform_routing.rule_id = "C09.TRANSFORM-ROUTING"
+
+RULES = [purity, no_alias_store, affine_balance, unit_normal, direction_parts, transform_equals_methods, transform_routing, linear_parts, deep_copy]
